@@ -83,4 +83,35 @@ EncodeReduced(o, n, li) == [r \in DOMAIN li |-> [j \in 1..(n - 1) |-> IF li[r] =
 EncodeFull(n, li) == [r \in DOMAIN li |-> [j \in 1..n |-> R(B2I(li[r] = j))]]
 \* a user-supplied coding matrix (CustomContrasts): the row of the level, whatever the rank requested; a null / unseen value is the zero row
 EncodeCustom(M, li) == [r \in DOMAIN li |-> [j \in DOMAIN M[1] |-> IF li[r] = 0 THEN Zero ELSE M[li[r]][j]]]
+
+(* order: row i of a coding belongs to level i of the NOMINATED list, whatever order the scores are written in and      *)
+(* whatever order the carrier of the data brings along.  `variant` selects the algorithm: "code" is the specification, *)
+(* the others are design errors the bounded families of MC_ContrastsOrder must be able to refute.                       *)
+\* the monic orthogonal polynomial of degree 1 is the centred score: a second, independent definition of the linear column
+CentredScores(scores) == LET mean == RDiv(RSum(scores), R(Len(scores))) IN [i \in DOMAIN scores |-> RSub(scores[i], mean)]
+RECURSIVE InsertScore(_, _)
+InsertScore(x, s) == IF s = <<>> THEN <<x>> ELSE IF RLe(x, Head(s)) THEN <<x>> \o s ELSE <<Head(s)>> \o InsertScore(x, Tail(s))
+RECURSIVE SortScores(_)
+SortScores(s) == IF s = <<>> THEN <<>> ELSE InsertScore(Head(s), SortScores(Tail(s)))
+\* "sorted-scores": the scores pass through a sorting de-duplication and the sorted vector is used from there on
+PolyMonicV(variant, scores) == PolyMonic(IF variant = "sorted-scores" THEN SortScores(scores) ELSE scores)
+PolyLinearIsCentred(variant, scores) == \A i \in DOMAIN scores : PolyMonicV(variant, scores)[i][1] = CentredScores(scores)[i]
+\* re-ordering the scores by p re-orders the rows by p (p a permutation of the positions) and nothing else
+PolyRowsFollowScores(variant, scores, p) == PolyMonicV(variant, [i \in DOMAIN scores |-> scores[p[i]]]) = [i \in DOMAIN scores |-> PolyMonicV(variant, scores)[p[i]]]
+
+\* a carrier of categorical data (a categorical dtype) has its own category list `own` - level indices of the nominated list, any
+\* arrangement of any subset - and holds codes into it (0 = null).  The labels decide, not the codes:
+CarrierLevels(own, codes) == [r \in DOMAIN codes |-> IF codes[r] = 0 THEN 0 ELSE own[codes[r]]]
+\* "trust-carrier": the re-coding is skipped when the carrier's categories are the nominated levels as a set
+CarrierLi(variant, n, own, codes) == IF variant = "trust-carrier" /\ {own[i] : i \in DOMAIN own} = 1..n THEN codes ELSE CarrierLevels(own, codes)
+EncodeCarrierReduced(variant, o, n, own, codes) == EncodeReduced(o, n, CarrierLi(variant, n, own, codes))
+EncodeCarrierFull(variant, n, own, codes) == EncodeFull(n, CarrierLi(variant, n, own, codes))
+\* the same labels carried in the nominated order give the same rows (reduced and full)
+CarrierOrderIrrelevant(variant, o, n, own, codes) ==
+  LET ident == [i \in 1..n |-> i] labels == CarrierLevels(own, codes) IN
+  /\ EncodeCarrierReduced(variant, o, n, own, codes) = EncodeCarrierReduced(variant, o, n, ident, labels)
+  /\ EncodeCarrierFull(variant, n, own, codes) = EncodeCarrierFull(variant, n, ident, labels)
+\* treatment codings: a row is zero exactly for the reference level OF THE NOMINATED LIST (and for nulls)
+CarrierReferenceLevel(variant, o, n, own, codes) == o.name \in {"treatment", "sas"} /\ n > 1 =>
+  \A r \in DOMAIN codes : (\A j \in 1..(n - 1) : EncodeCarrierReduced(variant, o, n, own, codes)[r][j] = Zero) <=> CarrierLevels(own, codes)[r] \in {0, BaseOf(o, n)}
 =============================================================================
